@@ -857,6 +857,20 @@ pub fn run(ctx: &Ctx) {
         ctx.merge(t);
         ctx.space("counts with EDNS: additional sections of <= 4 entries over {ordinary record, hand-placed OPT record, hand-placed OPT with an option} x packet OPT set / unset x 0..=1 answers; both serialisers, a writer, and again after a parse: the header counts are the numbers of entries that follow", n, "complete");
     }
+    {
+        // the four counts at the last values a 16-bit field can hold, and one past them
+        let cases: Vec<(&'static str, usize)> = super::c04::ceiling_cases().into_iter().filter(|(k, _)| !k.ends_with("rdata")).collect();
+        par_shards(ctx, &cases, |(kind, n), t: &mut Tally| {
+            t.evals += 1;
+            t.nontrivial += 1;
+            let f: Vec<Finding> = super::c04::check_ceiling(kind, *n).into_iter().map(|f| Finding { sig: f.sig.replacen("C04|", "C08|", 1), ..f }).collect();
+            t.outcome("build");
+            if !f.is_empty() {
+                ctx.violations(f);
+            }
+        });
+        ctx.space("counts at the ceiling: sections of 65533..131073 entries (each section, additional with OPT) through both vector builds and both writers: the counts written are the numbers of entries that follow, a refusal is allowed only beyond 65535", cases.len() as u64, "complete");
+    }
     ctx.sample(json!({"kind": "parse", "word": 0x8180, "id": 0x1234}));
     ctx.sample(json!({"kind": "peek", "word": 0x7bff, "id": 1, "counts": [0, 1, 65535, 0]}));
     ctx.sample(json!({"kind": "algebra", "a": F_QR | F_AD, "b": F_AD | F_CD, "opcode": 5, "rcode": 9}));
@@ -891,6 +905,7 @@ pub fn replay(case: &Value) -> Vec<Finding> {
             g("b") as u16,
         ),
         "algebra" => check_algebra(g("a") as u16, g("b") as u16, g("opcode") as u8, g("rcode") as u16, Some(&subs)),
+        "ceiling" => super::c04::check_ceiling(case["what"].as_str().unwrap_or(""), case["n"].as_u64().unwrap_or(0) as usize).into_iter().map(|f| Finding { sig: f.sig.replacen("C04|", "C08|", 1), ..f }).collect(),
         "build-edns" => {
             let pat: Vec<u8> = case["pattern"].as_array().map(|a| a.iter().map(|x| x.as_u64().unwrap_or(0) as u8).collect()).unwrap_or_default();
             check_build_edns(&pat, case["with_opt"].as_bool().unwrap_or(false), case["answers"].as_u64().unwrap_or(0) as usize)
